@@ -459,6 +459,28 @@ def r_containment(ctx: Ctx, rule: str):
     g = ctx.an.cfg(f)
     parses = ctx.distinct_sites(ctx.nodes(f, lambda n: n.op == "call" and isinstance(n.ast.func, ast.Attribute) and n.ast.func.attr in ("parse_args", "parse_known_args")))
     rep.floor(rule, "parse_args call in _parse_command", len(parses), 1)
+    # INPUT-SAFE: whatever else is done to the client's line on its way to the parser cannot raise past the session
+    # (a tokeniser / converter applied to raw client text - shlex.split, int(), json.loads, literal_eval - rejects some lines)
+    lp_ = sess.methods.get("listen")
+    for root_f in [x for x in (f, lp_) if x is not None]:
+        for n_ in ctx.distinct_sites(ctx.nodes(root_f, lambda n: n.op == "call" and n.callee is not None and n.callee.kind == "ext"
+                                               and not (isinstance(n.ast.func, ast.Attribute) and n.ast.func.attr in ("parse_args", "parse_known_args")))):
+            escapes = [lab for c_ in [x for x in ctx.an.cfg(root_f).nodes if x.ast is n_.ast and x.op == "call" and x.pred] for s_, lab in c_.succ
+                       if lab[0] == "x" and s_.op not in ("handler", "suppressed")]
+            if not escapes:
+                continue
+            # does it work on the line?
+            def from_line(e_: ast.AST) -> bool:
+                for fr_, env_, leaf in ctx.vals.leaves(n_.func, n_.env, e_):
+                    for x in ast.walk(leaf):
+                        if isinstance(x, ast.Name) and fr_ in (f, lp_) and x.id == "msg":
+                            return True
+                        if isinstance(x, ast.Attribute) and x.attr in ("readline", "read"):
+                            return True
+                return False
+            if any(from_line(a_) for a_ in list(n_.ast.args) + [k.value for k in n_.ast.keywords]):
+                rep.ob(rule, "no step applied to the client's line can raise out of the session (every line is answered, the session goes on)", False, node=n_,
+                       detail=f"{n_.callee.name} may raise {escapes[0][1][0].rpartition('.')[2]} on some lines and nothing catches it here: the line gets no reply and the connection dies")
     need = {"argparse.ArgumentError": "ArgumentError", "exceptions.HelpRequested": "HelpRequested", "exceptions.ParserError": "ParserError"}
     for p in parses:
         copies = [n for n in g.nodes if n.ast is p.ast and n.op == "call" and n.pred]
